@@ -404,6 +404,22 @@ func runC06(in sx.SX) (sx.SX, string) {
 			fail = fmt.Sprintf("In(list, x) returned %s although (x = element) is %v for some element", sx.Text(obs), any)
 		}
 	}
+	// ... and an undefined comparison is an error, not "no": when x = element is undefined for some element and true for
+	// none, In(list, x) does not answer false
+	if fail == "" && op == 20 && err == nil && a.Type() == variants.Array && b.Type() != variants.Null && b.Type() != variants.Array {
+		undefined, anyTrue := false, false
+		for _, e := range a.AsArray() {
+			r, eerr := m.Equal(b, e)
+			if eerr != nil {
+				undefined = true
+			} else if r != nil && r.Type() == variants.Boolean && r.AsBoolean() {
+				anyTrue = true
+			}
+		}
+		if undefined && !anyTrue {
+			fail = fmt.Sprintf("In(list, x) returned %s although x = element is undefined (an error) for an element and true for none", sx.Text(obs))
+		}
+	}
 	// numeric operands of different types: the second is converted by the host's own conversion, then the host
 	// arithmetic of the first operand's type applies (type-unsafe manager; the type-safe one may refuse instead)
 	if fail == "" && binary && a.Type() != b.Type() && err == nil {
